@@ -19,6 +19,7 @@ import (
 
 type CaseTables struct {
 	vt.Env
+	Follow bool `json:",omitempty"` // also parse and check the cut-down follow-up feed (see followUp)
 	Tables  sgen.Tables
 	Inherit bool
 	Labels  []string `json:",omitempty"`
@@ -284,6 +285,18 @@ func checkC03(c CaseTables) error {
 		if v, ok := err.(*vt.Violation); ok {
 			v.Msg = fmt.Sprintf("%s (edits: %v)", v.Msg, c.Labels)
 		}
+		return err
+	}
+	if c.Follow {
+		// a cut-down feed parsed right after it, whose references name ids only the feed before carries: they dangle
+		ft := followUp(c.Tables)
+		if fs, ferr := parseStatic(ft, sgen.Canonical(), c.Inherit); ferr == nil {
+			if _, err = checkClosure(ft, fs); err != nil {
+				if v, ok := err.(*vt.Violation); ok {
+					v.Msg = fmt.Sprintf("in the cut-down feed parsed after the first one: %s (edits: %v)", v.Msg, c.Labels)
+				}
+			}
+		}
 	}
 	return err
 }
@@ -309,6 +322,7 @@ func propC03(t *rapid.T) {
 	mts, labels := sgen.Mutate(t, ts, k, false)
 	c := CaseTables{Tables: mts, Inherit: rapid.Bool().Draw(t, "inherit"), Labels: labels}
 	c.Env = genEnv(t)
+	c.Follow = rapid.IntRange(0, 3).Draw(t, "followUp") == 0
 	cls := []string{}
 	hostile := false
 	for _, l := range labels {
